@@ -420,7 +420,9 @@ def _validate_original_url(url: str, prefix: str) -> str:
     if parsed.scheme or parsed.netloc:
         # Not a relative URL — fall back to the prefix root
         return prefix or "/"
-    if prefix and not url.startswith(prefix):
+    # Match whole path segments: "/vgix" is a sibling of "/vgi", not under it.
+    base = prefix.rstrip("/")
+    if base and parsed.path != base and not parsed.path.startswith(base + "/"):
         return prefix or "/"
     return url
 
